@@ -59,6 +59,10 @@ def main():
                     x = torch.ones((*lead, inf), dtype=dtype) * c["ones"]
                     w = torch.ones((outf, inf), dtype=dtype)
                 qw = quantize_weight(w, QT[c["wq"]], 0, c.get("group_size"))
+                if c.get("per_tensor_weight") and c["wq"] in ("qint8", "qfloat8_e4m3fn", "qfloat8_e5m2"):
+                    # a weight quantized per-tensor (one scalar scale): what quantize_activation-style code and some checkpoints hold
+                    from optimum.quanto.tensor.quantizers import SymmetricQuantizer
+                    qw = SymmetricQuantizer.apply(w, QT[c["wq"]], None, absmax_scale(w, QT[c["wq"]]))
                 if c.get("layout") == "transposed" and len(lead) >= 2:
                     # same logical shape, non-contiguous memory (a transposed activation, as after attention head reshuffling)
                     x = x.reshape(lead[1], lead[0], *lead[2:], inf).transpose(0, 1)
@@ -106,6 +110,18 @@ def main():
                         y_again = Fn.linear(xb, qw, b)
                         y_fresh = Fn.linear(xb.clone(), qw, b)
                     r["reused_input_ok"] = bool(torch.equal(y_again.contiguous().view(torch.uint8), y_fresh.contiguous().view(torch.uint8)))
+                # the same weight OBJECT after its codes and scales were overwritten in place (QBytesTensor.copy_): the next product
+                # must use the current codes
+                if type(qw).__name__ == "QBytesTensor" and not isinstance(qx, QTensor):
+                    with torch.no_grad():
+                        w2 = quantize_weight((w * 0.5 + 0.01).flip(0), QT[c["wq"]], 0, c.get("group_size")) if not c.get("per_tensor_weight") else None
+                        if w2 is not None:
+                            qw_work = qw.clone()
+                            Fn.linear(qx, qw_work, b)
+                            qw_work.copy_(w2)
+                            y_a = Fn.linear(qx, qw_work, b)
+                            y_f = Fn.linear(qx, w2.clone(), b)
+                            r["reused_weight_ok"] = bool(torch.equal(y_a.contiguous().view(torch.uint8), y_f.contiguous().view(torch.uint8)))
                 r.update(stats(y, ref, absref))
                 r["K"] = inf
                 # all internal routes on the same 8-bit operands must agree with the reference as well
